@@ -144,11 +144,11 @@ def compareInts (a b : GoVal) : R Ordering :=
 
 /-! ## `ToLiquid`, interface equality -/
 
-/-- `values.ToLiquid`: one level. A pointer to the harness's drop struct is a drop as well
-(the method set of `*dropV` contains `ToLiquid`). -/
+/-- `values.ToLiquid`: a drop that yields a drop is resolved in turn (`GoVal.toLiquid`). A pointer to
+the harness's drop struct is a drop as well (the method set of `*dropV` contains `ToLiquid`). -/
 def toLiq : GoVal → GoVal
-  | .drop v => v
-  | .ptr (.drop v) => v
+  | .drop v => toLiq v
+  | .ptr (.drop v) => toLiq v
   | v => v
 
 /-- `reflect.ValueOf(a).Comparable()` of a non-nil interface value -/
@@ -321,14 +321,15 @@ def keyedMapK : Ty → List (GoVal × GoVal) → R Bool :=
   fun _ _ => .unmodelled "IterationKeyedMap (the driver rewrites it to map[string]any)"
 
 mutual
-/-- `values.Equal(a, b)`. `equalAux true a b` is the function itself; `equalAux false a b` is its
-body after `a = ToLiquid(a)` (the flag only exists to keep the recursion structural). -/
+/-- `values.Equal(a, b)`. `equalAux true a b` is the function itself (its `ToLiquid(a)` follows a drop that
+yields a drop to the end); `equalAux false a b` is its body after `a = ToLiquid(a)` (the flag only exists to
+keep the recursion structural). -/
 def equalAux : Bool → GoVal → GoVal → R Bool
-  | true, .drop v, b => equalAux false v b
+  | true, .drop v, b => equalAux true v b
   | false, .drop v, b => equalBody (.drop v) (toLiq b) noSeq noMap
   | fl, .ptr v, b =>
     match fl, v with
-    | true, .drop w => equalAux false w b
+    | true, .drop w => equalAux true w b
     | _, _ => equalBody (.ptr v) (toLiq b) noSeq noMap
   | _, .slice t xs, b => equalBody (.slice t xs) (toLiq b) (seqVals xs (equalList xs)) noMap
   | _, .array t xs, b => equalBody (.array t xs) (toLiq b) (seqVals xs (equalList xs)) noMap
